@@ -219,6 +219,26 @@ func readOnly(b1 []byte, o *vh.Obs) {
 			return
 		}
 	}
+	// the same on the signed envelope, which may also carry stamps (in an
+	// order nothing would choose)
+	if env.Sign(signKey) != nil {
+		return
+	}
+	env.Head.AddStamp(&head.Stamp{Provider: "zeta-provider", Value: "z"})
+	env.Head.AddStamp(&head.Stamp{Provider: "alpha-provider", Value: "a"})
+	env.Head.AddStamp(&head.Stamp{Provider: "mid-provider", Value: "m"})
+	if b1, err = json.Marshal(env); err != nil {
+		return
+	}
+	o.Class("readonly-signed")
+	for _, s := range steps {
+		s.fn()
+		after, err := json.Marshal(env)
+		if err != nil || !bytes.Equal(after, b1) {
+			o.Failf("readonly-signed:"+s.name, "%s changed the signed envelope at %s", s.name, diffPath(b1, after))
+			return
+		}
+	}
 }
 
 // ---------------------------------------------------------------------------
@@ -1018,7 +1038,7 @@ func judgeDecorated(c DecoratedCase, o *vh.Obs) {
 
 func init() {
 	vh.Describe(
-		"(i) every example document of every schema, and legacy variants of two example invoices per regime rewritten into the older shapes the library migrates on load (tax identity zones in PT / CO / MX, PT legacy exempt rate keys, IT SDI extension keys, MX identities that became extensions, tags and old rounding names on the tax object, tags on combos, online payment name / addr); (ii) generated invoices / orders / deliveries (C01 variety); (iii) example documents with 1-3 string fields (codes, series, identities, addresses, notes, names) replaced by hostile strings (spaces, doubled separators, non-ASCII, leading invalid characters, country prefixes); (iv) random histories of up to 12 steps of calculate / serialise+parse / validate / digest / verify / extract / sign / re-sign / clone over examples; (v) every published regime / addon / catalogue file parsed by its $schema and serialised again; (vi) normaliser laws on hostile strings; (viii) a minimal invoice for every registered regime x every published addon (and none) x every rate key of every category (plus explicit 0% / 10% / no percentage) and x every general, regime and addon invoice tag with a customer of the same and of five other countries; (ix) generated documents (tax-heavy, fixed amounts at the currency's precision) with 0-3 published addons, 0-3 general / regime / addon tags, a supplier tax identity and a customer of no, the same or any other tax country; (x) every member the published schemas declare and an example does not carry, added once per published type and member with a small valid instance and with each free-text string within two member names inside it replaced by untidy text (spaces, doubled separators, non-ASCII, prefixes); (vii) the calculated bytes of every example and of 40 generated documents recomputed in fresh processes with other GOMAXPROCS. Oracle: B1 = marshal(calc(parse(src))), marshal(parse(B1)) == B1, marshal(calc(parse(B1))) == B1 byte for byte with the same digest (also a third time), read-only operations leave marshal(env) unchanged, identical bytes across processes. Non-trivial: the case had something to normalise, round or reorder (hostile strings, rounding remainders, >= 2 history steps).",
+		"(i) every example document of every schema, and legacy variants of two example invoices per regime rewritten into the older shapes the library migrates on load (tax identity zones in PT / CO / MX, PT legacy exempt rate keys, IT SDI extension keys, MX identities that became extensions, tags and old rounding names on the tax object, tags on combos, online payment name / addr); (ii) generated invoices / orders / deliveries (C01 variety); (iii) example documents with 1-3 string fields (codes, series, identities, addresses, notes, names) replaced by hostile strings (spaces, doubled separators, non-ASCII, leading invalid characters, country prefixes); (iv) random histories of up to 12 steps of calculate / serialise+parse / validate / digest / verify / extract / sign / re-sign / clone over examples; (v) every published regime / addon / catalogue file parsed by its $schema and serialised again; (vi) normaliser laws on hostile strings; (viii) a minimal invoice for every registered regime x every published addon (and none) x every rate key of every category (plus explicit 0% / 10% / no percentage) and x every general, regime and addon invoice tag with a customer of the same and of five other countries; (ix) generated documents (tax-heavy, fixed amounts at the currency's precision) with 0-3 published addons, 0-3 general / regime / addon tags, a supplier tax identity and a customer of no, the same or any other tax country; (x) every member the published schemas declare and an example does not carry, added once per published type and member with a small valid instance and with each free-text string within two member names inside it replaced by untidy text (spaces, doubled separators, non-ASCII, prefixes); (vii) the calculated bytes of every example and of 40 generated documents recomputed in fresh processes with other GOMAXPROCS. Oracle: B1 = marshal(calc(parse(src))), marshal(parse(B1)) == B1, marshal(calc(parse(B1))) == B1 byte for byte with the same digest (also a third time), read-only operations leave marshal(env) unchanged - on the decorated unsigned envelope and again after signing it and adding three stamps in unsorted order -, identical bytes across processes. Non-trivial: the case had something to normalise, round or reorder (hostile strings, rounding remainders, >= 2 history steps).",
 		"identifiers and dates are pinned (explicit uuid / issue_date, fixed header uuid); signatures are random and excluded from byte comparisons",
 		"documents with a fixed amount finer than its presented precision are a recorded finding (excluded by signature, counted)",
 		"a panic on a hostile string is reported by C14, not here",
